@@ -88,7 +88,7 @@ CFG = {
     "shrink": shrink,
     "shrink_budget": 80,
     "manifest": {
-        "text": "Proof: on the Lean model M1 of the commit path, commits_in_read_order_partial (commit notifications of a stream strictly increase in read order), commit_offsets_increase, no_double_finish (no event committed or dropped twice) and conservation (once idle, accepted = commits + drops, each exactly once) hold for every op list without a dead queue; with a dead queue the order clause is refuted by a proved counterexample (known finding). The hand-over discipline the stream layer M2 assumes of the processor is itself proved of a model of processor.go (M3: dischargeStream / processEvent / doActions / Propagate / Spawn with plain, join-like and split-like actions): processor_obeys_discipline_partial for every chain with at most one holding action, every input sequence, time-out placement and call depth; the full statement is refuted only by a plain action breaking upstream of a busy holder (processor_discipline_counterexample_break_upstream); the nested-Propagate defect the first model exhibited for two holders was repaired (fix: processor.Propagate). Tie: boundary traces of the real pipeline replayed through M1 and M2; M3 predicts, from the case alone, every processor-side operation (hold, drop, propagate, out) of every stream and is compared with the trace (c02.run, c02.proc, and the C01 / c04.run cases); the Spec oracle (order, once, nothing lost when idle) is evaluated on the trace itself.",
+        "text": "Proof: on the Lean model M1 of the commit path, commits_in_read_order_partial (commit notifications of a stream strictly increase in read order), commit_offsets_increase, no_double_finish (no event committed or dropped twice) and conservation (once idle, accepted = commits + drops, each exactly once) hold for every op list without a dead queue; with a dead queue the order clause is refuted by a proved counterexample (known finding). The hand-over discipline the stream layer M2 assumes of the processor is itself proved of a model of processor.go (M3: dischargeStream / processEvent / doActions / Propagate / Spawn with plain, join-like and split-like actions): processor_obeys_discipline_partial for every chain with at most one holding action and processor_obeys_discipline_any_chain for any number of holding actions when no plain action breaks (every input sequence, time-out placement and call depth); the full statement is refuted only by a plain action breaking upstream of a busy holder (processor_discipline_counterexample_break_upstream); the nested-Propagate defect the first model exhibited for two holders was repaired (fix: processor.Propagate). Tie: boundary traces of the real pipeline replayed through M1 and M2; M3 predicts, from the case alone, every processor-side operation (hold, drop, propagate, out) of every stream and is compared with the trace (c02.run, c02.proc, and the C01 / c04.run cases); the Spec oracle (order, once, nothing lost when idle) is evaluated on the trace itself.",
         "note": "Trusted: Lean kernel + standard axioms; fdmodel compilation; harness and trace hooks (verif tag). Assumed: Go mutex/cond/channel semantics; 'finished' = send returned nil or the error callback was invoked after the configured retries. The hand-over order guard of `add` is the interface to the stream/processor layer (checked on every trace; proved from the stream protocol in M2 where available). Not modelled: do_if conditions of actions, several busy-capable actions in one chain (outside the proved part), collapse-only plugins (parse_es, k8s multiline) as holders.",
         "technique": "Lean 4 proof (inductive invariant over op lists) + trace correspondence on the real pipeline",
     },
